@@ -38,6 +38,13 @@ def source_of(fnode, expr, prog=None, func=None, depth=0, out=None):
     if depth > 8 or expr is None:
         out["terminal"] = ast.unparse(expr) if expr is not None else None
         return out
+    if isinstance(expr, ast.Call) and (dotted(expr.func) or "") in ("map", "filter", "itertools.filterfalse", "filterfalse"):
+        from .desugar import simplify_functional
+
+        e2 = simplify_functional(expr)   # map / filter pipelines read as the generator expressions they are
+        if not isinstance(e2, ast.Call):
+            ast.fix_missing_locations(e2)
+            return source_of(fnode, e2, prog, func, depth + 1, out)
     if isinstance(expr, ast.Call):
         d = dotted(expr.func)
         if d in ORDER_ONLY and expr.args:
